@@ -717,4 +717,22 @@ func ruleReplicatorTableExact(c *eng.Ctx) {
 	})
 	c.Check(n > 0 && reachable, rule, "updateReplicators:dropped-collection⇒peer-removed", fi.Decl.Pos(), "for a non-empty set, a collection outside the set loses the peer",
 		"with a non-empty collection set the peer is not removed from the in-memory table of a collection that is no longer in the set: after a partial DeleteReplicator the running node keeps pushing that collection to the peer, a restarted node (table rebuilt from the persisted list) does not")
+	// the table is updated on every path: no exit of the function (e.g. after a failed connection
+	// attempt to a peer that is currently down) comes before the range over s.replicators
+	var loop *ast.RangeStmt
+	ast.Inspect(fi.Decl.Body, func(m ast.Node) bool {
+		if rs, ok := m.(*ast.RangeStmt); ok && loop == nil && isFieldNamed(info, rs.X, "replicators") {
+			loop = rs
+		}
+		return true
+	})
+	if loop == nil {
+		c.Unknown(rule, "updateReplicators:table-updated-on-every-path", fi.Decl.Pos(), "anchor-unresolved: range over s.replicators")
+		return
+	}
+	early, where := flow.ExitsWithout(flow.Entry(), true, func(nd ast.Node) bool {
+		return nd.Pos() >= loop.Pos() && nd.End() <= loop.End()
+	}, nil)
+	c.Check(!early, rule, "updateReplicators:table-updated-on-every-path", fi.Decl.Pos(), "every path reaches the table update",
+		"updateReplicators can return at "+c.P.Rel(where)+" before the in-memory replicator table is updated: a replicator whose peer is unreachable when the table is rebuilt (node start-up, SetReplicator during an outage) is persisted but never pushed to, and no failure is recorded for it")
 }
